@@ -80,7 +80,7 @@ func CheckCall(sc *Scenario, v *CallView, rs RuleSet, em int) []Violation {
 			returned, val := false, interface{}(nil)
 			retPoint := len(rd.Secs)
 			switch rd.Ret {
-			case RetNestedV, RetLoop, RetElse:
+			case RetNestedV, RetLoop, RetElse, RetForRange, RetElseIf, RetBreak, RetContinue:
 				returned, val = x.RetTrue, int64(x.Ver)*1000+int64(x.Rule)
 			case RetReq:
 				returned = x.RetTrue
